@@ -35,6 +35,7 @@ TxAlphabet ==
   \* an order raised inside a transaction that is rolled back (the id stays free)
   \cup { Tx(<<[t |-> "Raise", pur |-> "A3", amt |-> 5, denom |-> "nund"], [t |-> "Raise", pur |-> "A3", amt |-> 3, denom |-> "nund"], [t |-> "Raise", pur |-> "A3", amt |-> 3, denom |-> "foo"]>>) }
   \cup { GovTx(Presets[i]) : i \in DOMAIN Presets }
+  \cup { GovTxFailingFor(st, "ent", Presets[1]) }
 
 \* the rolled-back creation scripts (three messages) do not use up the ration of failing transactions
 Scripted(ev) == Len(ev.msgs) >= 3
